@@ -48,6 +48,10 @@ pub struct Lifetime {
     /// for lifetimes that end by a plain drop; the scenario ends with this lifetime)
     #[serde(default)]
     pub exit_mprotect_fail: Option<u64>,
+    /// the whole lifetime (creation, installations, scope exit) runs inside a destructor while
+    /// another panic is unwinding the thread (a fixture that uses its own injector in `Drop`)
+    #[serde(default)]
+    pub inside_unwind: bool,
 }
 
 #[derive(Serialize, Deserialize, Clone, Debug, PartialEq)]
@@ -649,7 +653,7 @@ pub fn generate(profile: &str, variant: &str, seed: u64, index: u64) -> SimScena
                 classes.push(format!("kind-{kind}"));
                 ops.push(Install { target: rng.below(l.targets.len() as u64) as usize, kind: kind.into(), fake, value: rng.chance(1, 2) });
             }
-            lifetimes.push(Lifetime { ops, exit_panic: rng.chance(1, 6), pre: Vec::new(), exit_mprotect_fail: None });
+            lifetimes.push(Lifetime { ops, exit_panic: rng.chance(1, 6), pre: Vec::new(), exit_mprotect_fail: None, inside_unwind: false });
             classes.extend(l.classes.iter().cloned());
             return finish(profile, variant, seed, index, ps, pol, l, lifetimes, classes);
         }
@@ -706,7 +710,11 @@ pub fn generate(profile: &str, variant: &str, seed: u64, index: u64) -> SimScena
                         classes.push("env-occupy-freed".into());
                     }
                 }
-                lifetimes.push(Lifetime { ops, exit_panic, pre, exit_mprotect_fail: None });
+                let inside_unwind = rng.chance(1, 8);
+                if inside_unwind {
+                    classes.push("lifetime-inside-unwind".into());
+                }
+                lifetimes.push(Lifetime { ops, exit_panic, pre, exit_mprotect_fail: None, inside_unwind });
             }
             classes.extend(l.classes.iter().cloned());
             return finish(profile, variant, seed, index, ps, pol, l, lifetimes, classes);
@@ -750,7 +758,7 @@ pub fn generate(profile: &str, variant: &str, seed: u64, index: u64) -> SimScena
                 let fake2 = if arch == Arch::Arm { gen_fake32(&mut rng, &mut classes) } else { gen_fake64(&mut rng, None, &mut classes) };
                 ops.push(Install { target: 0, kind: "raw".into(), fake: fake2, value: false });
             }
-            lifetimes.push(Lifetime { ops, exit_panic: false, pre: Vec::new(), exit_mprotect_fail: None });
+            lifetimes.push(Lifetime { ops, exit_panic: false, pre: Vec::new(), exit_mprotect_fail: None, inside_unwind: false });
             classes.extend(l.classes.drain(..));
             return finish(profile, variant, seed, index, ps, pol, l, lifetimes, classes);
         }
@@ -791,7 +799,7 @@ pub fn generate(profile: &str, variant: &str, seed: u64, index: u64) -> SimScena
                 ops.push(Install { target: 0, kind: kind.into(), fake: fake.max(1), value: i % 32 == 15 });
             }
             classes.push(format!("mode{mode}-pos{pos}"));
-            lifetimes.push(Lifetime { ops, exit_panic: false, pre: Vec::new(), exit_mprotect_fail: None });
+            lifetimes.push(Lifetime { ops, exit_panic: false, pre: Vec::new(), exit_mprotect_fail: None, inside_unwind: false });
             classes.extend(l.classes.iter().cloned());
             return finish(profile, variant, seed, index, ps, pol, l, lifetimes, classes);
         }
@@ -820,7 +828,7 @@ pub fn generate(profile: &str, variant: &str, seed: u64, index: u64) -> SimScena
                     _ => "entry-t32-halfword".into(),
                 });
             }
-            lifetimes.push(Lifetime { ops, exit_panic: rng.chance(1, 8), pre: Vec::new(), exit_mprotect_fail: None });
+            lifetimes.push(Lifetime { ops, exit_panic: rng.chance(1, 8), pre: Vec::new(), exit_mprotect_fail: None, inside_unwind: false });
             classes.extend(l.classes.iter().cloned());
             return finish(profile, variant, seed, index, ps, pol, l, lifetimes, classes);
         }
@@ -852,7 +860,7 @@ fn finish(
         // any listed property quantifies over, so not judged)
         let mut seen = std::collections::BTreeSet::new();
         let once = last.ops.iter().all(|o| seen.insert(o.target));
-        if once && !last.exit_panic && !last.ops.is_empty() && pick % 10 == 0 && matches!(profile, "C01" | "C02" | "C03" | "C12" | "C17" | "C11") {
+        if once && !last.exit_panic && !last.inside_unwind && !last.ops.is_empty() && pick % 10 == 0 && matches!(profile, "C01" | "C02" | "C03" | "C12" | "C17" | "C11") {
             last.exit_mprotect_fail = Some((pick / 10) % 3);
             classes.push("exit-mprotect-refused".into());
             classes.sort();
